@@ -49,6 +49,10 @@ var nestedKeyPool = []string{"resourceRef", "claimRef", "resourceRefs", "composi
 func genValue(r *rand.Rand, depth int) any {
 	switch n := r.IntN(7); {
 	case n == 0:
+		if r.IntN(4) == 0 {
+			// 64-bit integers no float64 holds exactly (ids, quotas, MaxInt64 sentinels)
+			return []int64{9007199254740993, 9223372036854775807, -9007199254740995, 1 << 62}[r.IntN(4)] - int64(r.IntN(2))*2
+		}
 		return int64(r.IntN(100))
 	case n == 1:
 		return fmt.Sprintf("s%d", r.IntN(50))
